@@ -200,6 +200,39 @@ theorem filter_pods (s : State) (ns name : String) (nodes : List String) (ch : C
       · rename_i set _
         exact ((filterNodes_quiet set nodes [] (getSubnet s pod ch).1).1.frame.pods).trans key
 
+theorem getSubnet_pods (s : State) (pod : Pod) (ch : Choice) : (getSubnet s pod ch).1.pods = s.pods := by
+  rcases getSubnet_state s pod ch with e | ⟨resv, n, e⟩
+  · rw [e]
+  · rw [e]
+    unfold allocateDuringFilter
+    split
+    · exact (allocateInSubnetWithKey_chg s _ _ n _ ch.pick).frame.pods
+    · unfold allocateInSubnet
+      dsimp only
+      split
+      · rfl
+      · split
+        · rfl
+        · split
+          · rfl
+          · split
+            · exact (stCreate_step _ _ _).frame.pods
+            · exact (stCreate_step _ _ _).frame.pods
+
+theorem preempt_pods (s : State) (ns name : String) (nodes : List String) (ch : Choice) :
+    (Plugin.preempt s ns name nodes ch).1.pods = s.pods := by
+  unfold Plugin.preempt
+  split
+  · rfl
+  · rename_i pod _
+    split
+    · rfl
+    · split
+      · rfl
+      · exact getSubnet_pods s pod ch
+      · rename_i set _
+        exact ((filterNodes_quiet set nodes [] (getSubnet s pod ch).1).1.frame.pods).trans (getSubnet_pods s pod ch)
+
 /-! ### the invariant -/
 
 structure Inv10 (s : State) : Prop where
@@ -241,8 +274,8 @@ theorem lister_vals (s : State) (h : Inv s) : ∀ p, p ∈ Tbl.vals s.vPods → 
   exact ⟨by rw [(keyOf_fields e.2 lwf).2]; exact lwf.2.1, l0⟩
 
 /-- the invariant core through one move -/
-theorem core_step (s : State) (m : Move) (h : Inv s) (c : Core s) (ha : assumed10 s m = true) :
-    Core (step Facts.good s m).1 := by
+theorem core_step (s : State) (m : Move) (h : Inv s) (c : Core s) (ha : assumed10 s m = true)
+    (hc' : Coherent (step Facts.good s m).1) : Core (step Facts.good s m).1 := by
   cases m with
   | createPod ns name kind app pool policy ranges wants => dsimp only [step]; split <;> exact c.of_eq rfl rfl rfl rfl rfl rfl
   | deletePod ns name => dsimp only [step]; split <;> exact c.of_eq rfl rfl rfl rfl rfl rfl
@@ -266,7 +299,7 @@ theorem core_step (s : State) (m : Move) (h : Inv s) (c : Core s) (ha : assumed1
   | bind ns name uid node ch fault pfault =>
     simp only [assumed10, Bool.and_eq_true, Bool.or_eq_true, beq_iff_eq] at ha
     have c0 : Core (withFaults s fault pfault) := c.of_eq rfl rfl rfl rfl rfl rfl
-    refine (bind_post (withFaults s fault pfault) ns name uid node ch c0 ha.1 ha.2 (fun pod hpod => ?_)).core
+    refine (bind_post (withFaults s fault pfault) ns name uid node ch c0 rfl ha.1 ha.2 (fun pod hpod => ?_)).core
     obtain ⟨_, l0, _, lwf, _⟩ := h.lister (ns, name) pod hpod
     exact ⟨by rw [(keyOf_fields pod lwf).2]; exact lwf.2.1, l0⟩
   | deliver i fault pfault => exact core_deliver _ _ i (c.of_eq (s' := withFaults s fault pfault) rfl rfl rfl rfl rfl rfl)
@@ -284,6 +317,7 @@ theorem core_step (s : State) (m : Move) (h : Inv s) (c : Core s) (ha : assumed1
     have ho : s.orphans = [] := by simpa [assumed10] using ha
     have c0 : Core (withFaults s 0 0) := c.of_eq rfl rfl rfl rfl rfl rfl
     have r := restart_same (withFaults s 0 0) c0.coh ho
+    show Core (restart (withFaults s 0 0)).1
     exact ⟨r.2.1, by rw [r.2.2.2.1]; exact c.on,
       fun j => by unfold prov; rw [r.1 j, r.2.2.1]; exact c.j j, by rw [r.2.2.1]; exact c.log⟩
   | resyncSnap => exact c.of_eq rfl rfl rfl rfl rfl rfl
@@ -292,8 +326,55 @@ theorem core_step (s : State) (m : Move) (h : Inv s) (c : Core s) (ha : assumed1
     split
     · exact c
     · rename_i r0 _
-      have c0 : Core (withFaults s fault pfault) := c.of_eq rfl rfl rfl rfl rfl rfl
-      exact (resyncOne_core _ ip r0 c0 (single_of_alloc_eq (single_of_bool s c.coh ha) rfl)).1.of_eq rfl rfl rfl rfl rfl rfl
+      split
+      · exact c
+      · have c0 : Core (withFaults s fault pfault) := c.of_eq rfl rfl rfl rfl rfl rfl
+        exact (resyncOne_core _ ip r0 c0 (single_of_alloc_eq (single_of_bool s c.coh ha) rfl)).1.of_eq rfl rfl rfl rfl rfl rfl
+  | preempt ns name nodes ch fault =>
+    exact preempt_core _ ns name nodes ch (c.of_eq (s' := withFaults s fault 0) rfl rfl rfl rfl rfl rfl)
+  | adminReserve ip text policy =>
+    dsimp only [step] at hc' ⊢
+    by_cases ht : text = ""
+    · rw [if_pos ht]; exact c
+    · rw [if_neg ht] at hc' ⊢
+      by_cases hfree : (!s.free.contains ip) = true
+      · rw [if_pos hfree]; exact c
+      · rw [if_neg hfree] at hc' ⊢
+        have hin : ip ∈ s.free := by simpa using hfree
+        have hnone : Tbl.get s.alloc ip = none := c.coh.disjoint ip hin
+        refine ⟨hc', c.on, fun j => ?_, c.log⟩
+        show RecOK (Tbl.get (Tbl.set s.alloc ip _) j) (Tbl.get (prov s) j)
+        rw [Tbl.get_set]
+        by_cases hij : ip = j
+        · rw [if_pos hij, ← hij, (c.j ip).unassigned_of_free hnone]
+          exact RecOK.of_unassigned _ (fun r hr _ => by cases hr; rfl)
+        · rw [if_neg hij]; exact c.j j
+  | adminUnreserve ip =>
+    dsimp only [step] at hc' ⊢
+    revert hc'
+    cases hr : Tbl.get s.alloc ip with
+    | none => intro _; exact c
+    | some r =>
+      dsimp only
+      intro hc'
+      by_cases hres : (!(r.reserved && r.key.isAdmin)) = true
+      · rw [if_pos hres]; exact c
+      · rw [if_neg hres] at hc' ⊢
+        have hadm : r.key.isAdmin = true := by
+          cases h1 : r.reserved <;> cases h2 : r.key.isAdmin <;> simp [h1, h2] at hres ⊢
+        have hpodE : r.key.pod = "" := by
+          unfold Key.isAdmin at hadm
+          simp only [Bool.and_eq_true, beq_iff_eq] at hadm
+          exact hadm.1.2
+        have hun : Tbl.get (prov s) ip = none :=
+          (c.j ip).unassigned_of_node r hr ((c.j ip).2 r hr (Or.inl hpodE))
+        refine ⟨hc', c.on, fun j => ?_, c.log⟩
+        show RecOK (Tbl.get (Tbl.erase s.alloc ip) j) (Tbl.get (prov s) j)
+        rw [Tbl.get_erase]
+        by_cases hij : ip = j
+        · rw [if_pos hij, ← hij, hun]
+          exact RecOK.of_unassigned _ (fun r hr _ => by cases hr)
+        · rw [if_neg hij]; exact c.j j
 
 /-- where a live bound pod of the state after the move comes from: it was live and bound before, with the same node and
     addresses - or the move has just bound it and its addresses are assigned to its node -/
@@ -367,7 +448,7 @@ theorem back_step (s : State) (m : Move) (h : Inv s) (c : Core s) (ha : assumed1
   | bind ns name uid node ch fault pfault =>
     simp only [assumed10, Bool.and_eq_true, Bool.or_eq_true, beq_iff_eq] at ha
     have c0 : Core (withFaults s fault pfault) := c.of_eq rfl rfl rfl rfl rfl rfl
-    have bp := bind_post (withFaults s fault pfault) ns name uid node ch c0 ha.1 ha.2 (fun pod hpod => by
+    have bp := bind_post (withFaults s fault pfault) ns name uid node ch c0 rfl ha.1 ha.2 (fun pod hpod => by
       obtain ⟨_, l0, _, lwf, _⟩ := h.lister (ns, name) pod hpod
       exact ⟨by rw [(keyOf_fields pod lwf).2]; exact lwf.2.1, l0⟩)
     rcases bp.pods with e | ⟨tp, H, htp, e, hprov⟩
@@ -399,13 +480,26 @@ theorem back_step (s : State) (m : Move) (h : Inv s) (c : Core s) (ha : assumed1
     dsimp only [step]
     split
     · exact Back.of_pods_eq rfl
-    · exact Back.of_pods_eq (resyncOne_pods _ (withFaults s fault pfault) ip _)
+    · split
+      · exact Back.of_pods_eq rfl
+      · exact Back.of_pods_eq (resyncOne_pods _ (withFaults s fault pfault) ip _)
+  | preempt ns name nodes ch fault => exact Back.of_pods_eq (preempt_pods (withFaults s fault 0) ns name nodes ch)
+  | adminReserve ip text policy =>
+    dsimp only [step]
+    split
+    · exact Back.of_pods_eq rfl
+    · split <;> exact Back.of_pods_eq rfl
+  | adminUnreserve ip =>
+    dsimp only [step]
+    split
+    · exact Back.of_pods_eq rfl
+    · split <;> exact Back.of_pods_eq rfl
 
 theorem inv10_step (s : State) (m : Move) (h : Inv10 s) (ha : assumedAll s m = true) :
     Inv10 (step Facts.good s m).1 := by
   obtain ⟨ha1, ha2⟩ := Bool.and_eq_true_iff.mp ha
   have b' := inv_step s m h.base ha1
-  have c' := core_step s m h.base h.core ha2
+  have c' := core_step s m h.base h.core ha2 b'.coh
   refine ⟨b', c', fun q hq hd hhd => ?_⟩
   rcases back_step s m h.base h.core ha2 q hq with ⟨q0, hq0, hn, hh⟩ | hnew
   · have h0 := h.bound q0 hq0 hd (by rw [hh]; exact hhd)
